@@ -13,13 +13,15 @@ EXTENDS Interp, Json
 
 CONSTANTS MaxEntries, DoExport, PoolSize
 
-NamePoolAll == << <<Lit("A")>>, <<Lit("B")>>, <<Lit("a")>>, <<Lit("X")>>, <<Lit("N_"), Ref("X", "plain")>>, <<Ref("X", "brace"), Lit("S")>> >>
+NamePoolAll == << <<Lit("A")>>, <<Lit("B")>>, <<Lit("a")>>, <<Lit("X")>>, <<Lit("N_"), Ref("X", "plain")>>, <<Ref("X", "brace"), Lit("S")>>,
+                 <<Ref("X", "brace")>> >>      \* a name that IS another variable's value (may already exist in the caller env)
 ValPoolAll == << <<Lit("1")>>, <<Ref("A", "plain")>>, <<Lit("P-"), Ref("B", "brace"), Lit("-S")>>, <<Esc("A", "dd")>>,
                  <<Esc("X", "bs"), Lit("+"), Ref("a", "plain")>>, <<Dflt("X", "D", "empty")>>, <<Dflt("B", "D", "unset")>>,
                  <<Ref("X", "brace")>>, <<Req("B")>>, <<Dflt("A", "D", "empty"), Esc("B", "dd")>> >>
 NamePool == {NamePoolAll[i] : i \in 1..Len(NamePoolAll)}
 ValPool == {ValPoolAll[i] : i \in 1..(IF PoolSize < Len(ValPoolAll) THEN PoolSize ELSE Len(ValPoolAll))}
-Env0s == { <<>>, ("A" :> "RA"), ("X" :> "RX"), ("A" :> "RA") @@ ("X" :> "RX"), ("A" :> "") @@ ("X" :> "RX") }
+Env0s == { <<>>, ("A" :> "RA"), ("X" :> "RX"), ("A" :> "RA") @@ ("X" :> "RX"), ("A" :> "") @@ ("X" :> "RX"),
+           ("A" :> "RA") @@ ("X" :> "A"), ("B" :> "RB") @@ ("X" :> "B") }     \* X names a variable the caller already has
 
 VARIABLES mode, prefer, block0, env0, lst, cenv, i, pc, nd, vd, intk, intv, ex, err
 vars == <<mode, prefer, block0, env0, lst, cenv, i, pc, nd, vd, intk, intv, ex, err>>
@@ -71,6 +73,7 @@ Want == FoldBlock(mode, prefer, block0, env0)
 
 InvAtDone == Done => (IF err THEN Want.err ELSE ~Want.err /\ lst = Want.block /\ cenv = Want.env)
 InvDefinitionOrder ==            \* entries before the cursor are rewritten, the others untouched, all in place
+    NoCollision(mode, prefer, block0, env0) =>     \* (colliding names are admitted only when the fold fails; which entry survives is not stated)
     /\ Len(lst) = n
     /\ \A j \in 1..n : j >= i /\ ~(j = i /\ pc # "expand") => lst[j] = P(Spell(block0[j].k), Spell(block0[j].v))
 InvRuntimePrecedence == prefer => \A x \in DOMAIN env0 : x \in DOMAIN cenv /\ cenv[x] = env0[x]
